@@ -25,15 +25,18 @@ Open Scope Z_scope.
 
 Definition rowsf := Z -> nat -> Z.
 
-Record obj := { oval : nat -> option Z; orig : nat -> option (option Z); oexp : nat -> bool; omod : bool }.
+Record obj := { oval : nat -> option Z; orig : nat -> option (option Z); oexp : nat -> bool; omod : bool;
+                oatt : bool  (* the instance is attached to the session (persistent), else detached *) }.
 Record state := { gen : N; com : rowsf; snap : option (N * rowsf); tx : bool; objs : Z -> obj }.
 
 Inductive op :=
 | Read (k : Z) (a : nat) | SetA (k : Z) (a : nat) (v : Z)
 | Expire (k : Z) (ns : list nat) | ExpireAll | Refresh (k : Z) (ns : list nat)
 | Commit | Rollback | PopEx
-| Ext (k : Z) (a : nat) (v : Z).
-Inductive res := RUnit | RVal (v : option Z) | RBusy.
+| Ext (k : Z) (a : nat) (v : Z)
+| PopExCols (ns : list nat)   (* populate_existing query whose rows carry the primary key and the columns ns only *)
+| Expunge (k : Z) | Add (k : Z).
+Inductive res := RUnit | RVal (v : option Z) | RBusy | RErr.
 
 Definition isnone {A} (o : option A) : bool := match o with None => true | Some _ => false end.
 Definition mem (a : nat) (l : list nat) : bool := existsb (Nat.eqb a) l.
@@ -49,31 +52,37 @@ Definition begin_read (s : state) : state :=
      tx := true; objs := objs s |}.
 
 Definition expire_full (o : obj) : obj :=
-  {| oval := fun _ => None; orig := fun _ => None; oexp := fun _ => true; omod := false |}.
+  {| oval := fun _ => None; orig := fun _ => None; oexp := fun _ => true; omod := false; oatt := oatt o |}.
 Definition expire_attrs (ns : list nat) (o : obj) : obj :=
   {| oval := fun a => if mem a ns then None else oval o a;
      orig := fun a => if mem a ns then None else orig o a;
      oexp := fun a => if mem a ns then true else oexp o a;
-     omod := omod o |}.
+     omod := omod o; oatt := oatt o |}.
 Definition expire_obj (ns : list nat) (o : obj) : obj :=
   match ns with [] => expire_full o | _ => expire_attrs ns o end.
 
 (* _load_expired + load_scalar_attributes: the expired attributes without pending change get the row's values *)
 Definition loaded_obj (r : nat -> Z) (o : obj) : obj :=
   {| oval := fun a => if oexp o a && isnone (orig o a) then Some (r a) else oval o a;
-     orig := orig o; oexp := fun _ => false; omod := omod o |}.
+     orig := orig o; oexp := fun _ => false; omod := omod o; oatt := oatt o |}.
 (* refresh: exactly the named attributes (all when the list is empty) are overwritten *)
 Definition refreshed_obj (ns : list nat) (r : nat -> Z) (o : obj) : obj :=
   match ns with
-  | [] => {| oval := fun a => Some (r a); orig := fun _ => None; oexp := fun _ => false; omod := false |}
+  | [] => {| oval := fun a => Some (r a); orig := fun _ => None; oexp := fun _ => false; omod := false; oatt := oatt o |}
   | _ => {| oval := fun a => if mem a ns then Some (r a) else oval o a;
             orig := fun a => if mem a ns then None else orig o a;
             oexp := fun a => if mem a ns then false else oexp o a;
-            omod := omod o |}
+            omod := omod o; oatt := oatt o |}
   end.
+(* populate_existing from rows that carry only the primary key attribute and the columns ns: the attributes in the
+   row are overwritten, the others are discarded and marked expired; pending changes are dropped *)
+Definition in_row (ns : list nat) (a : nat) : bool := Nat.eqb a 0 || mem a ns.
+Definition populated_obj (ns : list nat) (r : nat -> Z) (o : obj) : obj :=
+  {| oval := fun a => if in_row ns a then Some (r a) else None; orig := fun _ => None;
+     oexp := fun a => negb (in_row ns a); omod := false; oatt := oatt o |}.
 (* _commit_all_states after a flush *)
 Definition finalized (o : obj) : obj :=
-  {| oval := oval o; orig := fun _ => None; oexp := fun a => oexp o a && isnone (oval o a); omod := false |}.
+  {| oval := oval o; orig := fun _ => None; oexp := fun a => oexp o a && isnone (oval o a); omod := false; oatt := oatt o |}.
 
 Definition upd_obj (s : state) (k : Z) (o : obj) : Z -> obj := fun k' => if Z.eqb k' k then o else objs s k'.
 Definition with_objs (s : state) (f : Z -> obj) : state :=
@@ -87,11 +96,13 @@ Variable eoc : bool.          (* Session.expire_on_commit *)
 Variable pks : list Z.        (* primary keys of the instances in the identity map *)
 Variable attrs : list nat.    (* the mapped column attributes (0 = primary key attribute) *)
 
-Definition changed (o : obj) : bool := omod o && existsb (netch o) attrs.
+Definition changed (o : obj) : bool := oatt o && omod o && existsb (netch o) attrs.
+(* session-wide operations reach the attached instances only *)
+Definition att (f : obj -> obj) (o : obj) : obj := if oatt o then f o else o.
 Definition any_changed (s : state) : bool := existsb (fun k => changed (objs s k)) pks.
 
 Definition rolled_back (s : state) : state :=
-  {| gen := gen s; com := com s; snap := None; tx := false; objs := fun k => expire_full (objs s k) |}.
+  {| gen := gen s; com := com s; snap := None; tx := false; objs := fun k => att expire_full (objs s k) |}.
 
 Definition commit (s : state) : state * res :=
   let r := view s in
@@ -106,7 +117,7 @@ Definition commit (s : state) : state * res :=
     let fin := fun k =>
       let o := objs s k in
       let o1 := if omod o then finalized (if isnone (oval o 0%nat) then loaded_obj (r k) o else o) else o in
-      if eoc then expire_full o1 else o1 in
+      if oatt o then (if eoc then expire_full o1 else o1) else o in
     ({| gen := if wrote then N.succ (gen s) else gen s; com := com'; snap := None; tx := false; objs := fin |}, RUnit).
 
 Definition step (o : op) (s : state) : state * res :=
@@ -115,9 +126,11 @@ Definition step (o : op) (s : state) : state * res :=
       match oval (objs s k) a with
       | Some v => (s, RVal (Some v))
       | None =>
-          let s1 := begin_read s in
-          let ob := loaded_obj (view s1 k) (objs s k) in
-          (with_objs s1 (upd_obj s k ob), RVal (oval ob a))
+          if oatt (objs s k) then
+            let s1 := begin_read s in
+            let ob := loaded_obj (view s1 k) (objs s k) in
+            (with_objs s1 (upd_obj s k ob), RVal (oval ob a))
+          else (s, RErr)   (* DetachedInstanceError *)
       end
   | SetA k a v =>
       let ob := objs s k in
@@ -125,22 +138,38 @@ Definition step (o : op) (s : state) : state * res :=
                     orig := fun b => if Nat.eqb b a
                                      then match orig ob a with Some x => Some x | None => Some (oval ob a) end
                                      else orig ob b;
-                    oexp := oexp ob; omod := true |} in
-      ({| gen := gen s; com := com s; snap := snap s; tx := true; objs := upd_obj s k ob' |}, RUnit)
-  | Expire k ns => (with_objs s (upd_obj s k (expire_obj ns (objs s k))), RUnit)
-  | ExpireAll => (with_objs s (fun k => expire_full (objs s k)), RUnit)
+                    oexp := oexp ob; omod := true; oatt := oatt ob |} in
+      ({| gen := gen s; com := com s; snap := snap s; tx := tx s || oatt ob; objs := upd_obj s k ob' |}, RUnit)
+  | Expire k ns =>
+      if oatt (objs s k) then (with_objs s (upd_obj s k (expire_obj ns (objs s k))), RUnit)
+      else (s, RErr)   (* InvalidRequestError: not persistent within this Session *)
+  | ExpireAll => (with_objs s (fun k => att expire_full (objs s k)), RUnit)
   | Refresh k ns =>
-      let s1 := begin_read s in
-      (with_objs s1 (upd_obj s k (refreshed_obj ns (view s1 k) (expire_obj ns (objs s k)))), RUnit)
+      if oatt (objs s k) then
+        let s1 := begin_read s in
+        (with_objs s1 (upd_obj s k (refreshed_obj ns (view s1 k) (expire_obj ns (objs s k)))), RUnit)
+      else (s, RErr)
   | Commit => commit s
   | Rollback => if tx s then (rolled_back s, RUnit) else (s, RUnit)
   | PopEx =>
       let s1 := begin_read s in
-      (with_objs s1 (fun k => refreshed_obj [] (view s1 k) (objs s k)), RUnit)
+      (with_objs s1 (fun k => att (refreshed_obj [] (view s1 k)) (objs s k)), RUnit)
   | Ext k a v =>
       ({| gen := N.succ (gen s);
           com := fun k' a' => if Z.eqb k' k && Nat.eqb a' a then v else com s k' a';
           snap := snap s; tx := tx s; objs := objs s |}, RUnit)
+  | PopExCols ns =>
+      let s1 := begin_read s in
+      (with_objs s1 (fun k => att (populated_obj ns (view s1 k)) (objs s k)), RUnit)
+  | Expunge k =>
+      let ob := objs s k in
+      if oatt ob
+      then (with_objs s (upd_obj s k {| oval := oval ob; orig := orig ob; oexp := oexp ob; omod := omod ob; oatt := false |}), RUnit)
+      else (s, RErr)
+  | Add k =>
+      let ob := objs s k in
+      ({| gen := gen s; com := com s; snap := snap s; tx := true;
+          objs := upd_obj s k {| oval := oval ob; orig := orig ob; oexp := oexp ob; omod := omod ob; oatt := true |} |}, RUnit)
   end.
 
 Fixpoint run (l : list op) (s : state) : state :=
@@ -149,19 +178,21 @@ Fixpoint run (l : list op) (s : state) : state :=
 (* the session has loaded every instance with get() in a fresh transaction *)
 Definition init (r0 : rowsf) : state :=
   {| gen := 0; com := r0; snap := Some (0%N, r0); tx := true;
-     objs := fun k => {| oval := fun a => Some (r0 k a); orig := fun _ => None; oexp := fun _ => false; omod := false |} |}.
+     objs := fun k => {| oval := fun a => Some (r0 k a); orig := fun _ => None; oexp := fun _ => false; omod := false;
+                         oatt := true |} |}.
 Definition reach (r0 : rowsf) (s : state) : Prop := exists l, s = run l (init r0).
 
 (* number of SELECT statements an operation emits (observation only) *)
 Definition count (f : Z -> bool) : nat := length (filter f pks).
 Definition selects (o : op) (s : state) (r : res) : nat :=
   match o with
-  | Read k a => if isnone (oval (objs s k) a) then 1 else 0
-  | Refresh _ _ | PopEx => 1
+  | Read k a => if isnone (oval (objs s k) a) && oatt (objs s k) then 1 else 0
+  | Refresh k _ => if oatt (objs s k) then 1 else 0
+  | PopEx | PopExCols _ => 1
   | Commit =>
       match r with
       | RBusy => count (fun k => changed (objs s k) && isnone (oval (objs s k) 0%nat))
-      | _ => count (fun k => omod (objs s k) && isnone (oval (objs s k) 0%nat))
+      | _ => count (fun k => oatt (objs s k) && omod (objs s k) && isnone (oval (objs s k) 0%nat))
       end
   | _ => 0
   end%nat.
